@@ -24,26 +24,36 @@ fn op(c: Code, a: u8, b: u8, cc: u8) -> Op {
 ///   finally all handles but at most one are dropped, in both orders.
 pub fn generate(family: &str, cfg: &LensCfg) -> Vec<Vec<Op>> {
     match family {
-        "g3" => g3(cfg, false),
-        "g3s" => g3(cfg, true),
+        "g3" => g3(cfg, false, false),
+        "g3s" => g3(cfg, true, false),
+        // g3b: the finalizer script, the destructor script and the weak cell all sit on #1 - the object that #0 can
+        // own through its *untraced* cell, i.e. the one destroyed by reference counting nested inside the
+        // collector's dropping phase when #0 is garbage.
+        "g3b" => g3(cfg, false, true),
         other => panic!("unknown seed family {}", other),
     }
 }
 
-fn g3(cfg: &LensCfg, small: bool) -> Vec<Vec<Op>> {
+fn g3(cfg: &LensCfg, small: bool, on_one: bool) -> Vec<Vec<Op>> {
+    let (fin_obj, drop_obj, wcell_obj) = if on_one { (1u8, 1u8, 1u8) } else { (2u8, 0u8, 2u8) };
+    let wcell_targets: Vec<Option<u8>> = if on_one { vec![None, Some(0u8), Some(2)] } else { vec![None, Some(0u8), Some(1)] };
     assert!(cfg.nvars >= 4 && cfg.nobj >= 3, "seed family g3 needs --v 4 --n 3");
     let weak = has_code(cfg, Downgrade) && has_code(cfg, StoreWeak) && cfg.nw >= 1;
     let fin_menu: Vec<u8> = if has_code(cfg, SetFin) { cfg.fin_menu.clone() } else { vec![0] };
     let drop_menu: Vec<u8> = if has_code(cfg, SetDrop) { cfg.drop_menu.clone() } else { vec![0] };
     let act_menu: Vec<Option<u8>> = if has_code(cfg, Register) && cfg.nc >= 1 { std::iter::once(None).chain(cfg.action_menu.iter().map(|k| Some(*k))).collect() } else { vec![None] };
     let tgt = [None, Some(0u8), Some(1), Some(2)];
+    // Scripts that read the global G (try_unwrap / finalize_again / drop of G's content) are vacuous while G is
+    // empty: when a menu contains one, every shape is also built with G holding a Cc to #2 (to #0 in g3b).
+    let g_scripts = cfg.fin_menu.iter().any(|k| [10u8, 11, 12, 14, 15].contains(k)) || cfg.drop_menu.iter().any(|k| [3u8, 4, 5, 6].contains(k)) || cfg.action_menu.iter().any(|k| [7u8, 8, 9].contains(k));
+    let g_opts: Vec<Option<u8>> = if g_scripts { vec![None, Some(if on_one { 0 } else { 2 })] } else { vec![None] };
     let mut out: Vec<Vec<Op>> = Vec::new();
     for c0_0 in tgt {
         for c0_1 in tgt {
             for c0_2 in tgt {
                 for c1_1 in if small { vec![None, Some(1u8)] } else { tgt.to_vec() } {
                     for u_0 in [None, Some(1u8), Some(2)] {
-                        for w_2 in if weak { vec![None, Some(0u8), Some(1)] } else { vec![None] } {
+                        for w_2 in if weak { wcell_targets.clone() } else { vec![None] } {
                             for fin2 in &fin_menu {
                                 for drop0 in &drop_menu {
                                     for act in &act_menu {
@@ -64,13 +74,13 @@ fn g3(cfg: &LensCfg, small: bool) -> Vec<Vec<Op>> {
                                         edge(&mut base, 0, T as u8, u_0);
                                         if let Some(t) = w_2 {
                                             base.push(op(Downgrade, t, 0, 0));
-                                            base.push(op(StoreWeak, 2, 0, 0));
+                                            base.push(op(StoreWeak, wcell_obj, 0, 0));
                                         }
                                         if *fin2 != 0 {
-                                            base.push(op(SetFin, 2, *fin2, 0));
+                                            base.push(op(SetFin, fin_obj, *fin2, 0));
                                         }
                                         if *drop0 != 0 {
-                                            base.push(op(SetDrop, 0, *drop0, 0));
+                                            base.push(op(SetDrop, drop_obj, *drop0, 0));
                                         }
                                         if let Some(k) = act {
                                             base.push(op(Register, 0, *k, 0));
@@ -81,6 +91,12 @@ fn g3(cfg: &LensCfg, small: bool) -> Vec<Vec<Op>> {
                                         let mut base = base.clone();
                                         if let Some(t) = hw {
                                             base.push(op(Downgrade, t, 1, 0));
+                                        }
+                                        for g_of in &g_opts {
+                                        let mut base = base.clone();
+                                        if let Some(t) = g_of {
+                                            base.push(op(Dup, *t, 3, 0));
+                                            base.push(op(PutG, 3, 0, 0));
                                         }
                                         // handles: keep none or exactly one, drop the others in both orders
                                         for keep in [None, Some(0u8), Some(1), Some(2)] {
@@ -95,6 +111,7 @@ fn g3(cfg: &LensCfg, small: bool) -> Vec<Vec<Op>> {
                                                 }
                                                 out.push(h);
                                             }
+                                        }
                                         }
                                         }
                                     }
